@@ -51,8 +51,10 @@ pub(crate) fn format_docstring(docstring: String) -> String {
         } else if line.trim().is_empty() {
             result.push(String::new());
         } else {
+            // `min_indent` is a byte count taken from another line's leading whitespace; in this
+            // line it may fall inside a multi-byte character (e.g. U+2003), where slicing panics.
             let dedented = if line.len() > min_indent {
-                &line[min_indent..]
+                line.get(min_indent..).unwrap_or_else(|| line.trim_start())
             } else {
                 line.trim_start()
             };
